@@ -2,6 +2,13 @@
 from .condprops import make_case, CTOR_VARIANTS
 
 PROP = "C10"
+
+BOUNDS = {
+    "quick": "five conditional kinds; (Dx,Dy) in {(1,1),(2,1),(1,2)} (identity kinds (1,1),(2,2)); R=1 with N in {1,2} observations and R=N=2; product / slice / multiply / log_integral of the returned factor; constructor variants (precision only, covariance and precision, after update_Sigma)",
+    "thorough": "(2,2),(3,1),(1,3) semi-symbolic, N=3",
+}
+ASSUMPTIONS = ["the known finding C10-sety-normaliser-uses-Dx is recognised by re-deciding the property modulo exactly that offset (adjusted VC must be unsat); any other deviation is reported"]
+
 KINDS = ["full", "diag", "identity", "identitydiag", "nncontrol"]
 
 
